@@ -430,11 +430,12 @@ func ackKey(chain, s, d string, n uint64) string { return fmt.Sprintf("%s|%s|%s|
 // packet on the proving chain (or anywhere) are used.
 func (r *Runner) ackFor(tag string, p *Pkt, proofChain string) []byte {
 	if tag == "err" {
-		if b, ok := r.ackBytes[ackKey(proofChain, p.Src, p.Dst, p.Seq)]; ok {
+		// only bytes that really are an application error acknowledgement (not the relay chain's "unauthorized")
+		if b, ok := r.ackBytes[ackKey(proofChain, p.Src, p.Dst, p.Seq)]; ok && r.Tags.BytesTag(b) == "err" {
 			return b
 		}
 		for _, x := range r.N.Names {
-			if b, ok := r.ackBytes[ackKey(x, p.Src, p.Dst, p.Seq)]; ok {
+			if b, ok := r.ackBytes[ackKey(x, p.Src, p.Dst, p.Seq)]; ok && r.Tags.BytesTag(b) == "err" {
 				return b
 			}
 		}
